@@ -350,16 +350,31 @@ def _r204(ctx: Ctx, gmi, tables) -> None:
     codes, decoders, noise = tables['codes'], tables['decoders'], tables['noise_directions']
     gci = m.cls('GUI')
 
-    def run_handler(name, req):
+    gui_init = gci.find_method("__init__")
+
+    def new_gui(it):
+        # the real constructor is interpreted (Flask(...) and route registration are opaque), so that state the
+        # server keeps between requests is visible to the analysis
+        o = Obj(gci, 'gui')
+        if gui_init:
+            it.call_closure(Closure(gui_init[1], gmi, gci), [], {}, gui_init[1], self_obj=o)
+        o.fields.setdefault('codes', dict(codes))
+        o.fields.setdefault('decoders', dict(decoders))
+        return o
+
+    def run_handler(name, req, before=()):
         fn = gci.methods[name]
         hooks = _HData(req, codes, decoders)
         it = Interp(m, hooks)
 
         def thunk():
             hooks.events.clear()
-            o = Obj(gci, 'gui')
-            o.fields['codes'] = dict(codes)
-            o.fields['decoders'] = dict(decoders)
+            o = new_gui(it)
+            for bname, breq in before:            # earlier requests served by the same GUI object
+                hooks.req = breq
+                it.call_closure(Closure(gci.methods[bname], gmi, gci), [], {}, gci.methods[bname], self_obj=o)
+            hooks.events.clear()
+            hooks.req = req
             v = it.call_closure(Closure(fn, gmi, gci), [], {}, fn, self_obj=o)
             return v, list(hooks.events)
         outs = guard('R20.4', gmi, fn)(lambda: it.explore(thunk))
@@ -406,6 +421,29 @@ def _r204(ctx: Ctx, gmi, tables) -> None:
                 ctx.ob('R20.4', site, f'send_code_data("{gui_name}", deformation={deformation}, rotated={rot}): H/logicals of '
                                       f'the same instance, index order, requested picture', bad is None, bad or '',
                        key=f'send_code_data|{gui_name}|{deformation}|{rot}')
+
+    # request histories: the answer to a request must not depend on what the same server answered before
+    base_req = {'Lx': 3, 'Ly': 4, 'Lz': 5, 'code_name': 'Toric 2D', 'rotated_picture': False}
+    hist = [('deformed then undeformed', dict(base_req, code_deformation_name='XZZX'), dict(base_req, code_deformation_name='None'), None),
+            ('undeformed then deformed', dict(base_req, code_deformation_name='None'), dict(base_req, code_deformation_name='XZZX'), 'XZZX'),
+            ('XZZX then XY', dict(base_req, code_deformation_name='XZZX'), dict(base_req, code_deformation_name='XY'), 'XY')]
+    for label, first, second, dname in hist:
+        fn, outs = run_handler('send_code_data', second, before=[('send_code_data', first)])
+        site = site_of(gmi, fn)
+        bad = None
+        if len(outs) != 1 or outs[0].kind != 'return':
+            bad = f'{outs!r}'
+        else:
+            v, ev = outs[0].value
+            want_h = Tagged('list', ('stabilizer_matrix', dname))
+            if not isinstance(v, dict) or v.get('H') != want_h or v.get('logical_x') != Tagged('list', ('logicals_x', dname)):
+                bad = (f"second response has H = {v.get('H') if isinstance(v, dict) else v!r}; expected the matrix of a code "
+                       f"with deformation {dname!r} only (a code instance kept between requests carries the earlier deformation)")
+            de = [e[1] for e in ev if e[0] == 'deform']
+            if bad is None and de != ([dname] if dname else []):
+                bad = f'deform calls during the second request: {de!r}'
+        ctx.ob('R20.4', site, f'send_code_data after an earlier request ({label}): data of the requested instance only', bad is None,
+               bad or '', key=f'send_code_data|history[{label}]')
 
     # send_correction for every decoder
     for dname, dref in sorted(decoders.items()):
@@ -478,7 +516,7 @@ def run(ctx: Ctx) -> None:
     ctx.rule('R20.1', 'every stabilizer type string has a drawing entry for both pictures', floor=48)
     ctx.rule('R20.2', 'drawing entries are complete; colour names are in the colormap', floor=100)
     ctx.rule('R20.3', 'menus: code table, dimension partition, decoders offered = decoders declaring support', floor=50)
-    ctx.rule('R20.4', 'responses carry the library data of the requested (deformed) instance in index order', floor=20)
+    ctx.rule('R20.4', 'responses carry the library data of the requested (deformed) instance in index order, independent of earlier requests', floor=23)
     ctx.trust('gui-config.json is read as data; Flask routing and main.js are not analysed')
     gmi, tables = _gui_tables(ctx)
     _r201_202(ctx, tables['codes'])
